@@ -1,12 +1,17 @@
 #!/bin/bash
-# eval_seed.sh <ID> <patch.diff> [quick|thorough] [secs]  : run the check for ID against /repo with the patch applied
+# eval_seed.sh <ID> <patch.diff> [quick|thorough] [secs]
+# Runs the check for ID against a scratch worktree of /repo HEAD with the patch applied (VERIF_REPO), so /repo
+# itself is never touched and several evaluations can run side by side. Prints signatures and EXIT=<rc>.
 set -u
 ID=$1; P=$2; TIER=${3:-quick}; SECS=${4:-}
-cd /repo && git diff --quiet || { echo "repo dirty"; exit 2; }
-git apply $P || { echo "patch does not apply"; exit 2; }
+WT=/tmp/wt/eval-$$-$RANDOM
+git -C /repo worktree add -q --detach $WT HEAD || { echo "worktree failed"; exit 2; }
+trap 'git -C /repo worktree remove --force $WT >/dev/null 2>&1' EXIT
+git -C $WT apply $P || { echo "patch does not apply"; exit 2; }
 cd /verif
 if [ -n "$SECS" ]; then export VERIF_SECS=$SECS; fi
-./check $ID $TIER > /tmp/eval-$ID.log 2>&1; rc=$?
-git -C /repo checkout -- . ; git -C /repo clean -fdq
-grep -E "^VIOLATION|signature=|^$ID " /tmp/eval-$ID.log | cut -c1-260
+LOG=/tmp/eval-$ID-$$.log
+VERIF_REPO=$WT VERIF_EVIDENCE_DIR=/tmp/eval-evidence ./check $ID $TIER > $LOG 2>&1; rc=$?
+grep -E "^VIOLATION|signature=|^$ID |verifctl:" $LOG | cut -c1-260
 echo "EXIT=$rc"
+rm -f $LOG
